@@ -1,10 +1,301 @@
-(* Property C04 -- striping is a lossless, backend-independent rearrangement. *)
-From Coq Require Import List Arith Bool Lia Permutation.
+(* Property C04 -- striping is a lossless, backend-independent rearrangement of the
+   sequence.  Only the property theorems (closed by [exact] of lemmas from
+   StripeProofs / NetProofs / Avx2Proofs / HistoryProofs), statement pins and
+   non-vacuity examples.
+
+   Notation (DESIGN.md section 3): L = length s, C columns, R = seq_rows C L =
+   ceil(L/C), N = wild K = K-1 the wildcard.
+     Striped K C s st  :=  every row has C cells, rows st = R + wrap st, len st = L,
+                           cell r c = nth (c*R + r) s N  for all r < R + wrap st, c < C
+   (one closed form for sequence rows and look-ahead rows; cells whose linear index
+   is >= L hold the wildcard).  [wf_matrix C m] (every row has C cells) is the type
+   invariant of DenseMatrix<_, C>; it is the only thing assumed of a reused buffer. *)
+From Coq Require Import List Arith Bool Lia.
 From LMBase Require Import Res ListX.
-From LMStripe Require Import StripeModel NetModel GenStripeNet StripeAvx2 StripeSpec StripeProofs NetProofs.
+From LMStripe Require Import StripeModel NetModel GenStripeNet StripeAvx2 StripeSpec
+  StripeProofs NetProofs Avx2Proofs HistoryProofs.
 Import ListNotations.
 
+(* ---------- generic striping ---------- *)
+
+(* Stripe::stripe_into (default implementation) into ANY reused buffer: no panic, the
+   result is the striped form of s with no look-ahead rows. *)
 Theorem C04_stripe_generic_spec : forall K C (s : list nat) (old : sseq),
   0 < C -> wf_matrix C (mat old) ->
   exists st, stripe_into_generic K C s old = Ok st /\ Striped K C s st /\ swrap st = 0.
 Proof. exact stripe_into_generic_spec. Qed.
+
+(* Stripe::stripe (fresh matrix, row count computed the other way) *)
+Theorem C04_stripe_fresh_spec : forall K C (b : backend) (s : list nat),
+  0 < C -> backend_typed C b = true ->
+  exists st, stripe_fresh K C (stripe_into K C b) s = Ok st /\ Striped K C s st /\ swrap st = 0.
+Proof.
+  intros K C b s HC Hb. apply (stripe_fresh_spec K C HC). intros old Hwf.
+  exact (stripe_into_spec K C HC b s old Hb Hwf).
+Qed.
+
+(* Striped determines the whole state: "the" striped form *)
+Theorem C04_striped_unique : forall K C s st1 st2,
+  Striped K C s st1 -> Striped K C s st2 -> swrap st1 = swrap st2 -> st1 = st2.
+Proof. exact Striped_unique. Qed.
+
+(* ---------- the AVX2 kernel ---------- *)
+
+(* The network translated from avx2.rs (GenStripeNet.v: 32 loads, the unpack!
+   invocations, 32 stores), run on 32 vectors of 32 lanes of ANY contents, stores
+   their transpose: out row r, lane c = lane r of the vector loaded at src + c*stride.
+   (Reflection: one vm_compute on the coordinate matrix, NetProofs.net_coords.) *)
+Theorem C04_transpose_net_correct : forall (A : Type) (d : A) (ld : nat -> list A),
+  (forall k, k < 32 -> length (ld k) = 32) ->
+  net_block d net_loads net_ops net_stores ld =
+  map (fun r => map (fun c => nth r (ld c) d) (seq 0 32)) (seq 0 32).
+Proof. exact transpose_net_lemma. Qed.
+
+(* stripe_avx2 (block loop through the network, scalar tail rows, wildcard fill,
+   empty-sequence early return) = generic stripe_into, for every sequence and every
+   stale buffer.  In particular the model's UB sites are never reached: no vector
+   load outside the sequence slice (Panic 90), no store outside the matrix (91). *)
+Theorem C04_stripe_avx2_eq_generic : forall K (s : list nat) (old : sseq),
+  wf_matrix 32 (mat old) ->
+  stripe_into_avx2 K s old = stripe_into_generic K 32 s old.
+Proof. exact stripe_avx2_eq_generic_lemma. Qed.
+
+Theorem C04_stripe_avx2_spec : forall K (s : list nat) (old : sseq),
+  wf_matrix 32 (mat old) ->
+  exists st, stripe_into_avx2 K s old = Ok st /\ Striped K 32 s st /\ swrap st = 0.
+Proof. exact stripe_into_avx2_spec. Qed.
+
+(* Pipeline<A, Dispatch>::stripe_into: whichever arm runs (table translated from
+   dispatch.rs), the result is the generic one *)
+Theorem C04_stripe_dispatch_eq : forall K (a : arm) (s : list nat) (old : sseq),
+  wf_matrix 32 (mat old) ->
+  kernel_into K 32 (disp_stripe a) s old = stripe_into_generic K 32 s old.
+Proof. exact stripe_dispatch_eq_lemma. Qed.
+
+(* every pipeline that exists for the column count (generic: any C; avx2 and
+   dispatch/any arm: C = 32) gives the generic result, into any buffer *)
+Theorem C04_stripe_backend_independent : forall K C (b : backend) (s : list nat) (old : sseq),
+  0 < C -> backend_typed C b = true -> wf_matrix C (mat old) ->
+  stripe_into K C b s old = stripe_into_generic K C s old.
+Proof. intros K C b s old HC. exact (stripe_into_backend_indep K C HC b s old). Qed.
+
+(* ---------- look-ahead rows ---------- *)
+
+(* configure_wrap(k), any k (also k > R, where look-ahead rows are copied from
+   look-ahead rows built earlier in the same call): no panic, still the striped form
+   of the same sequence, wrap' = max wrap k *)
+Theorem C04_configure_wrap_spec : forall K C (s : list nat) (st : sseq) (k : nat),
+  0 < C -> Striped K C s st ->
+  exists st', configure_wrap K C k st = Ok st' /\ Striped K C s st' /\
+              swrap st' = Nat.max (swrap st) k.
+Proof. intros K C s st k HC. exact (configure_wrap_spec K C HC s st k). Qed.
+
+Theorem C04_configure_spec : forall K C (s : list nat) (st : sseq) (M : nat),
+  0 < C -> Striped K C s st ->
+  exists st', configure K C M st = Ok st' /\ Striped K C s st' /\
+              swrap st' = if M =? 0 then swrap st else Nat.max (swrap st) (M - 1).
+Proof. intros K C s st M HC. exact (configure_spec K C HC s st M). Qed.
+
+(* look-ahead row k (matrix row R+k) is matrix row k shifted left by one column,
+   wildcard in the last column *)
+Theorem C04_wrap_row_shift : forall K C (s : list nat) (st : sseq) (k : nat),
+  0 < C -> Striped K C s st -> k < swrap st ->
+  nth (seq_rows C (length s) + k) (mat st) [] = shift_row K (nth k (mat st) []).
+Proof. exact wrap_row_shift_lemma. Qed.
+
+(* ---------- histories ---------- *)
+
+(* Any list of stripe_into / stripe / configure / configure_wrap calls (any
+   pipelines that exist for C, any sequences, any widths, any order) on one buffer:
+   no panic; the buffer is the striped form of the sequence striped LAST; its wrap is
+   what the configure calls since then demand. *)
+Theorem C04_striped_history : forall K C (ops : list op) (s : list nat) (st : sseq),
+  0 < C -> Striped K C s st -> forallb (op_typed C) ops = true ->
+  exists st', run K C st ops = Ok st' /\ Striped K C (last_seq s ops) st' /\
+              swrap st' = wrap_after (swrap st) ops.
+Proof. intros K C ops s st HC. exact (run_spec K C HC ops s st). Qed.
+
+(* ... starting from StripedSequence::default(), and after every prefix *)
+Theorem C04_history_from_default : forall K C (ops : list op) (n : nat),
+  0 < C -> forallb (op_typed C) ops = true ->
+  exists st', run K C s_default (firstn n ops) = Ok st' /\
+              Striped K C (last_seq [] (firstn n ops)) st' /\
+              swrap st' = wrap_after 0 (firstn n ops).
+Proof.
+  intros K C ops n HC Ht.
+  exact (run_prefix_spec K C HC ops [] s_default n (Striped_default K C HC) Ht).
+Qed.
+
+(* the whole history is backend independent *)
+Theorem C04_history_backend_independent : forall K C (ops : list op) (s : list nat) (st : sseq),
+  0 < C -> Striped K C s st -> forallb (op_typed C) ops = true ->
+  run K C st ops = run K C st (map generic_op ops).
+Proof. intros K C ops s st HC. exact (run_backend_indep K C HC ops s st). Qed.
+
+(* ---------- Index and symbol counts ---------- *)
+
+(* Index<usize>, with or without look-ahead rows: position i of the linear sequence
+   (the wildcard for L <= i < R*C, a panic beyond) *)
+Theorem C04_index_spec : forall K C (s : list nat) (st : sseq) (i : nat),
+  0 < C -> Striped K C s st ->
+  (i < seq_rows C (length s) * C -> s_index K C st i = Ok (nth i s (wild K))) /\
+  (seq_rows C (length s) * C <= i -> exists site, s_index K C st i = Panic site).
+Proof. exact s_index_spec. Qed.
+
+(* count_symbols / count_symbol = those of the linear sequence *)
+Theorem C04_count_symbols_spec : forall K C (s : list nat) (st : sseq),
+  0 < C -> Striped K C s st -> Forall (fun y => y < K) s ->
+  count_symbols K C st = Ok (lin_counts K s) /\
+  forall x, count_symbol K C st x = Ok (lin_count s x).
+Proof.
+  intros K C s st HC HS Hsym. split.
+  - exact (count_symbols_lemma K C HC s st HS Hsym).
+  - exact (count_symbol_lemma K C HC s st HS).
+Qed.
+
+(* after any history: indexing and counting see the sequence striped last *)
+Theorem C04_history_index_counts : forall K C (ops : list op) (s : list nat) (st : sseq) (i : nat),
+  0 < C -> Striped K C s st -> forallb (op_typed C) ops = true ->
+  Forall (fun y => y < K) (last_seq s ops) ->
+  exists st', run K C st ops = Ok st' /\
+    (i < length (last_seq s ops) -> s_index K C st' i = Ok (nth i (last_seq s ops) (wild K))) /\
+    count_symbols K C st' = Ok (lin_counts K (last_seq s ops)).
+Proof.
+  intros K C ops s st i HC HS Ht Hsym.
+  destruct (run_spec K C HC ops s st HS Ht) as (st' & Hrun & HS' & _).
+  exists st'. split; [exact Hrun|]. split.
+  - intros Hi. apply (s_index_spec K C _ st' i HC HS').
+    pose proof (seq_rows_ge C (length (last_seq s ops)) HC). lia.
+  - exact (count_symbols_lemma K C HC _ st' HS' Hsym).
+Qed.
+
+(* ---------- the extracted checker ---------- *)
+
+(* what the checker accepts is what the property demands of an observation *)
+Theorem C04_check_sound : forall K C (s : list nat) (ob : obs),
+  0 < C -> check_C04 K C s ob = true -> Holds_C04 K C s ob.
+Proof. exact check_C04_sound_lemma. Qed.
+
+(* the check on the state alone is also complete *)
+Theorem C04_check_striped_iff : forall K C (s : list nat) (st : sseq),
+  check_striped K C s st = true <-> Striped K C s st.
+Proof.
+  intros K C s st. split.
+  - exact (check_striped_sound_lemma K C s st).
+  - exact (check_striped_complete_lemma K C s st).
+Qed.
+
+(* the property in executable form: after any history the model's own observation
+   passes the checker *)
+Theorem C04_model_passes : forall K C (ops : list op) (s : list nat) (st : sseq) (idx : list nat),
+  0 < C -> Striped K C s st -> forallb (op_typed C) ops = true ->
+  Forall (fun y => y < K) (last_seq s ops) ->
+  exists st', run K C st ops = Ok st' /\
+              check_C04 K C (last_seq s ops) (observe K C st' idx) = true.
+Proof.
+  intros K C ops s st idx HC HS Ht Hsym.
+  destruct (run_spec K C HC ops s st HS Ht) as (st' & Hrun & HS' & _).
+  exists st'. split; [exact Hrun|].
+  exact (model_passes_C04_lemma K C _ st' idx HC Hsym HS').
+Qed.
+
+(* ---------- statement pins ---------- *)
+
+Check C04_stripe_generic_spec : forall K C (s : list nat) (old : sseq),
+  0 < C -> wf_matrix C (mat old) ->
+  exists st, stripe_into_generic K C s old = Ok st /\ Striped K C s st /\ swrap st = 0.
+Check C04_transpose_net_correct : forall (A : Type) (d : A) (ld : nat -> list A),
+  (forall k, k < 32 -> length (ld k) = 32) ->
+  net_block d net_loads net_ops net_stores ld =
+  map (fun r => map (fun c => nth r (ld c) d) (seq 0 32)) (seq 0 32).
+Check C04_stripe_avx2_eq_generic : forall K (s : list nat) (old : sseq),
+  wf_matrix 32 (mat old) -> stripe_into_avx2 K s old = stripe_into_generic K 32 s old.
+Check C04_stripe_dispatch_eq : forall K (a : arm) (s : list nat) (old : sseq),
+  wf_matrix 32 (mat old) -> kernel_into K 32 (disp_stripe a) s old = stripe_into_generic K 32 s old.
+Check C04_configure_wrap_spec : forall K C (s : list nat) (st : sseq) (k : nat),
+  0 < C -> Striped K C s st ->
+  exists st', configure_wrap K C k st = Ok st' /\ Striped K C s st' /\ swrap st' = Nat.max (swrap st) k.
+Check C04_wrap_row_shift : forall K C (s : list nat) (st : sseq) (k : nat),
+  0 < C -> Striped K C s st -> k < swrap st ->
+  nth (seq_rows C (length s) + k) (mat st) [] = shift_row K (nth k (mat st) []).
+Check C04_striped_history : forall K C (ops : list op) (s : list nat) (st : sseq),
+  0 < C -> Striped K C s st -> forallb (op_typed C) ops = true ->
+  exists st', run K C st ops = Ok st' /\ Striped K C (last_seq s ops) st' /\
+              swrap st' = wrap_after (swrap st) ops.
+Check C04_index_spec : forall K C (s : list nat) (st : sseq) (i : nat),
+  0 < C -> Striped K C s st ->
+  (i < seq_rows C (length s) * C -> s_index K C st i = Ok (nth i s (wild K))) /\
+  (seq_rows C (length s) * C <= i -> exists site, s_index K C st i = Panic site).
+Check C04_count_symbols_spec : forall K C (s : list nat) (st : sseq),
+  0 < C -> Striped K C s st -> Forall (fun y => y < K) s ->
+  count_symbols K C st = Ok (lin_counts K s) /\ forall x, count_symbol K C st x = Ok (lin_count s x).
+Check C04_check_sound : forall K C (s : list nat) (ob : obs),
+  0 < C -> check_C04 K C s ob = true -> Holds_C04 K C s ob.
+
+(* ---------- non-vacuity ---------- *)
+
+(* a DNA sequence of 6 symbols in 4 columns: R = 2, two padding cells *)
+Definition ex_s : list nat := [0; 1; 2; 3; 0; 1].
+Definition ex_st : sseq := mkS [[0; 2; 0; 4]; [1; 3; 1; 4]] 6 0.
+
+Example ex_striped : Striped 5 4 ex_s ex_st.
+Proof. apply check_striped_sound_lemma. vm_compute. reflexivity. Qed.
+
+Example ex_stripe_into_stale_buffer :
+  stripe_into_generic 5 4 ex_s (mkS [[1; 1; 1; 1]; [2; 2; 2; 2]; [3; 3; 3; 3]] 12 1) = Ok ex_st.
+Proof. vm_compute. reflexivity. Qed.
+
+(* configure_wrap wider than the row count: look-ahead rows 2.. are built from
+   look-ahead rows 0.. *)
+Example ex_wrap_wider_than_rows :
+  configure_wrap 5 4 5 ex_st =
+  Ok (mkS [[0; 2; 0; 4]; [1; 3; 1; 4];
+           [2; 0; 4; 4]; [3; 1; 4; 4]; [0; 4; 4; 4]; [1; 4; 4; 4]; [4; 4; 4; 4]] 6 5).
+Proof. vm_compute. reflexivity. Qed.
+
+(* a history with growing / shrinking widths, a second sequence and an empty one *)
+Definition ex_ops : list op :=
+  [OStripeInto BGeneric ex_s; OConfigureWrap 5; OConfigure 3; OStripe BGeneric [0; 1; 2];
+   OConfigureWrap 1; OConfigure 0; OStripeInto BGeneric []; OConfigureWrap 2].
+
+Example ex_history_typed : forallb (op_typed 4) ex_ops = true.
+Proof. reflexivity. Qed.
+
+Example ex_history_run :
+  run 5 4 s_default (firstn 5 ex_ops) = Ok (mkS [[0; 1; 2; 4]; [1; 2; 4; 4]] 3 1) /\
+  run 5 4 s_default ex_ops = Ok (mkS [[4; 4; 4; 4]; [4; 4; 4; 4]] 0 2) /\
+  last_seq [] (firstn 5 ex_ops) = [0; 1; 2] /\ wrap_after 0 ex_ops = 2.
+Proof. vm_compute. repeat split; reflexivity. Qed.
+
+(* the AVX2 block loop really runs: 1056 symbols = 33 rows, one 32-row block through
+   the network, one scalar tail row; the stale buffer is longer than needed *)
+Definition ex_long : list nat := map (fun i => (i * i + i / 7) mod 5) (seq 0 1056).
+Definition ex_stale : sseq := mkS (repeat (repeat 2 32) 40) 1280 3.
+
+Example ex_avx2_block_runs :
+  match block_loop 33 ex_long 33 0 (m_resize 5 32 (mat ex_stale) 33) with
+  | Ok (i, _) => i = 32
+  | _ => False
+  end.
+Proof. vm_compute. reflexivity. Qed.
+
+Example ex_avx2_eq_generic_computed :
+  stripe_into_avx2 5 ex_long ex_stale = stripe_into_generic 5 32 ex_long ex_stale /\
+  match stripe_into_avx2 5 ex_long ex_stale with
+  | Ok st => check_C04 5 32 ex_long (observe 5 32 st [0; 1055; 1056]) = true
+  | _ => False
+  end.
+Proof. vm_compute. split; reflexivity. Qed.
+
+(* the dispatcher's AVX2 arm is typed for 32 columns only *)
+Example ex_typed : op_typed 32 (OStripeInto (BDispatch AAvx2) ex_s) = true /\
+                   op_typed 16 (OStripeInto (BDispatch AAvx2) ex_s) = false.
+Proof. split; reflexivity. Qed.
+
+(* the checker rejects a wrong wildcard fill, a misplaced symbol and a wrong count *)
+Example ex_check_rejects :
+  check_striped 5 4 ex_s (mkS [[0; 2; 0; 4]; [1; 3; 1; 0]] 6 0) = false /\
+  check_striped 5 4 ex_s (mkS [[0; 1; 2; 3]; [0; 1; 4; 4]] 6 0) = false /\
+  check_C04 5 4 ex_s (mkObs ex_st [] (Ok [2; 2; 1; 1; 1]) (Ok [2; 2; 1; 1; 0]) true) = false /\
+  check_C04 5 4 ex_s (mkObs ex_st [(5, Ok 1); (6, Ok 4)] (Ok [2; 2; 1; 1; 0]) (Ok [2; 2; 1; 1; 0]) true) = true.
+Proof. vm_compute. repeat split; reflexivity. Qed.
